@@ -1,6 +1,6 @@
 # C06 - a suspend point never loses or duplicates a ready coroutine
 import re
-from ..core import Item, norm, relloc, live, calls, evs, Broken, value_origin, Tracer, fmt_trace, rooted, has_back_edge, pos
+from ..core import Item, norm, relloc, live, calls, evs, Broken, value_origin, Tracer, fmt_trace, rooted, has_back_edge, pos, efield
 from .. import witness
 from ..rules import *
 
@@ -25,6 +25,8 @@ def run(ctx, db, tier):
     self_inclusion(ctx, db)
     growth(ctx, db)
     value_writers(ctx, db)
+    collected_is_removed(ctx, db)
+    parallel_resume_keeps_value(ctx, db)
     if ctx.cfg == 'assert':
         witness.positive(ctx, 'C06.types', 'C06_pos.cpp', 'suspend_point<void> / suspend_point<bool> are move-only; inline capacity is at least 3; a typed suspend point carries its value')
         witness.negative(ctx, 'C06.types-neg', 'C06_neg.cpp', 'copy construction / copy assignment of a suspend point must not compile (duplication needs a copy)')
@@ -101,8 +103,8 @@ def sp_functions(db):
     return out
 
 
-def typestate(ctx, db):
-    rid = ctx.rule('C06.storage-typestate', 'ABSTRACT-INTERPRETATION', 'per CFG path and per suspend-point object: inline storage accessed only in inline mode, heap storage only in heap mode '
+def typestate(ctx, db, rid='C06.storage-typestate'):
+    rid = ctx.rule(rid, 'ABSTRACT-INTERPRETATION', 'per CFG path and per suspend-point object: inline storage accessed only in inline mode, heap storage only in heap mode '
                    '(or once the new array is installed); clearing the heap bit / overwriting the array requires delete[] (or transfer) of the old array first; delete[] only in '
                    'heap mode; setting the heap bit requires an installed array. Mode facts come from branches on the code\'s own predicate (_count_flag & 1)', floor=8)
     fns = sp_functions(db)
@@ -560,3 +562,65 @@ def self_inclusion(ctx, db, rid_='C06.self-inclusion'):
                 bad = bad or e
         ctx.ob(rid, f, (bad or (ws[0] if ws else {'loc': f['key']}))['loc'], bad is None, 'the flag %s only ever accumulates inside the scan loop' % var.split(':')[1],
                desc='self-inclusion flag overwritten inside the loop')
+
+
+RQ = 'cocls::coro_queue::queue_impl::_queue'
+
+
+def collected_is_removed(ctx, db, rid='C06.collected-is-removed'):
+    """create_suspend_point moves the coroutines that became ready during fn() from the ready queue into the suspend point: every handle it
+    copies into the suspend point must be the very element it then removes, otherwise one coroutine is in both places (resumed twice) and
+    another in neither (never resumed)"""
+    rid = ctx.rule(rid, 'COUNT+ORDER', 'coro_queue::create_suspend_point: in every iteration of the collecting loop exactly one element of the ready queue is read into the suspend point and '
+                   'exactly one is removed, at the same end (back + pop_back, or front + pop_front); the loop runs while the queue is longer than it was before fn()', floor=1)
+    T = htracer(db, maxvisit=3)
+    fns = db.need('cocls::coro_queue::create_suspend_point')
+    seen = set(); n = 0
+    for f in fns:
+        if f['key'] in seen and n > 1:
+            continue
+        seen.add(f['key'])
+        trs = [t for t in T.traces(f) if live(t)]
+        ctx.paths(rid, len(trs))
+        bad = None; pairs = 0
+        for tr in trs:
+            pend = None
+            for it in tr:
+                if it.k != 'call' or efield(f, it) != RQ and norm(it.get('field') or '') != RQ:
+                    continue
+                o = norm(it.get('callee') or '').split('::')[-1]
+                if o in ('back', 'front', 'operator[]', 'at'):
+                    if pend is not None:
+                        bad = bad or ('two elements are read for one removal', tr)
+                    pend = o
+                elif o in ('pop_back', 'pop_front', 'erase'):
+                    if pend is None:
+                        bad = bad or ('an element is removed from the ready queue without having been put into the suspend point (lost)', tr)
+                    elif (pend, o) not in (('back', 'pop_back'), ('front', 'pop_front')):
+                        bad = bad or ('the element copied into the suspend point (%s) is not the one removed (%s): one coroutine ends up in both places, another in neither' % (pend, o), tr)
+                    else:
+                        pairs += 1
+                    pend = None
+            if pend is not None:
+                bad = bad or ('an element is copied into the suspend point but stays in the ready queue (resumed twice)', tr)
+        n += 1
+        if pairs == 0 and not bad:
+            raise Broken('create_suspend_point: the collecting loop was not recognised')
+        ctx.ob(rid, f, f['key'], bad is None, 'every collected handle is the removed one' + ('' if not bad else ' -- ' + bad[0]), desc=bad[0] if bad else None, trace=fmt_trace(bad[1]) if bad else None, inst=f.get('inst'))
+
+
+def parallel_resume_keeps_value(ctx, db, rid='C06.parallel-resume-moves-handles-only'):
+    """parallel_resume hands the prepared coroutines to a new thread and returns the value attached to the suspend point: what moves into the
+    thread is the handle list (the suspend_point<void> part) only"""
+    rid = ctx.rule(rid, 'TYPE', 'parallel_resume(suspend_point<T>&&), every instantiation: the closure given to the thread captures a suspend_point<void> built from the argument (the handle list), '
+                   'never the whole suspend_point<T>: the attached value stays in the argument for the await_resume() that returns it', floor=1)
+    fns = db.need('cocls::parallel_resume')
+    seen = set()
+    for f in fns:
+        if f['inst'] in seen:
+            continue
+        seen.add(f['inst'])
+        caps = [c for e in f.events() if e.k == 'lambda' for c in (e.get('captures') or []) if 'suspend_point' in (c.get('canon_type') or '')]
+        bad = [c for c in caps if 'suspend_point<void>' not in (c.get('canon_type') or '').replace(' ', '') or c.get('byref')]
+        ctx.ob(rid, f, f['key'], bool(caps) and not bad, 'the thread\'s closure owns only the handle list (%s)' % ', '.join((c.get('type') or '?') for c in caps),
+               desc='parallel_resume moves the whole suspend point (%s) into the thread: the value it is about to return is moved out' % (bad[0].get('type') if bad else None) if bad else ('no suspend point captured' if not caps else None), inst=f.get('inst'))
